@@ -845,6 +845,10 @@ func (e *Exec) havocKey(st *State, w string, tag string) {
 			st.Ghost[g] = e.havocLike(e.ghostGlobal(st, g), g+tag)
 			return
 		}
+		if strings.HasPrefix(g, "counter:") {
+			st.Ghost[g] = VInt{T: e.declare(g+tag, BV64)}
+			return
+		}
 		if strings.HasPrefix(g, "closed:") {
 			st.Ghost[g] = VBool{e.declare(g+tag, BoolSort)}
 			return
